@@ -96,9 +96,11 @@ Proof.
       try (intros _; left; reflexivity); try (intros _; lia).
   - (* IIns k *)
     assert (D0 : defaults c = 0) by (eapply TX; eauto).
-    destruct k as [|k].
+    destruct k as [|[|k]].
     + apply KEEP; auto; try discriminate; try (intros _; left; reflexivity).
-    + destruct (Nat.ltb (S k) 4); apply KEEP; auto; try discriminate; try (intros _; left; reflexivity).
+    + rewrite D0. cbn [Nat.eqb]. rewrite <- D0.
+      apply KEEP; auto; try discriminate; try (intros _; left; reflexivity).
+    + destruct (Nat.ltb (S (S k)) 9); apply KEEP; auto; try discriminate; try (intros _; left; reflexivity).
   - (* ICommit *)
     assert (D0 : defaults c = 0) by (eapply TX; eauto).
     destruct (others holds_s (ths c) i) eqn:OS; [exact SAME|]. cbn [defaults stored ths].
@@ -153,14 +155,14 @@ Qed.
     its first INSERT (holds RESERVED), B counts, begins, recounts and must
     upgrade: database is locked, at once *)
 Lemma c08_deferred_refuted_l :
-  let c := irun [0; 0; 0; 0; 1; 1; 1; 1] (iinit [Deferred; Deferred]) in
+  let c := irun [0; 0; 0; 0; 1; 1; 1; 1]%nat (iinit [Deferred; Deferred]) in
   map it_st (ths c) = [IIns 1; IFail].
 Proof. vm_compute. reflexivity. Qed.
 
 (** and nothing is stored twice or lost in the hold schedules of the suite *)
 Lemma c08_hold_cases_l :
-  forall h, h <= 10 -> eval_hold (Immediate, h) =
-    (1%Z, 1%Z, 1%Z, 2%Z, if (2 <=? h) && (h <=? 8) then 0%Z else 1%Z).
+  forall h, h <= 15 -> eval_hold (Immediate, h) =
+    (1%Z, 1%Z, 1%Z, 2%Z, if (2 <=? h) && (h <=? 13) then 0%Z else 1%Z).
 Proof.
-  intros h H. do 11 (destruct h as [|h]; [vm_compute; reflexivity|]). lia.
+  intros h H. do 16 (destruct h as [|h]; [vm_compute; reflexivity|]). lia.
 Qed.
